@@ -1324,22 +1324,69 @@ Proof.
 Qed.
 
 (* ================================================================== *)
+(* Layer 3b: the submit calls of one thread are sequential              *)
+(* ================================================================== *)
+Definition PInv (g : glob) : Prop :=
+  forall f k, (f < k)%nat -> (k < ntasks g)%nat -> tsub (gh g) f = tsub (gh g) k ->
+  exists r, tret (gh g) f = Some r /\ (r < tinv (gh g) k)%nat.
+
+Lemma PK_none g g' : PInv g -> ntasks g' = ntasks g -> tsub (gh g') = tsub (gh g) -> tinv (gh g') = tinv (gh g) ->
+  tret (gh g') = tret (gh g) -> PInv g'.
+Proof. intros H E1 E2 E3 E4. unfold PInv. rewrite E1, E2, E3, E4. exact H. Qed.
+
+Lemma PK_ret g g' tk : PInv g -> ntasks g' = ntasks g -> tsub (gh g') = tsub (gh g) -> tinv (gh g') = tinv (gh g) ->
+  tret (gh g) tk = None -> tret (gh g') = fupd (tret (gh g)) tk (Some (clock (gh g))) -> PInv g'.
+Proof.
+  intros H E1 E2 E3 Hn E4. unfold PInv. rewrite E1, E2, E3, E4. intros f k Hfk Hk Hs.
+  destruct (H f k Hfk Hk Hs) as [r [B1 B2]]. exists r. split; [|exact B2].
+  rewrite fupd_ne; [exact B1|]. intros ->. congruence.
+Qed.
+
+Lemma PK_new g g' ls t l : SInv g ls -> PInv g -> nth_error ls t = Some l -> at_ l = Idle ->
+  ntasks g' = S (ntasks g) -> tsub (gh g') = fupd (tsub (gh g)) (ntasks g) t ->
+  tinv (gh g') = fupd (tinv (gh g)) (ntasks g) (clock (gh g)) -> tret (gh g') = fupd (tret (gh g)) (ntasks g) None -> PInv g'.
+Proof.
+  intros HS H Hl Hpc E1 E2 E3 E4. unfold PInv. rewrite E1, E2, E3, E4. intros f k Hfk Hk.
+  destruct (Nat.eq_dec k (ntasks g)) as [->|Hne].
+  - rewrite fupd_eq, fupd_ne by lia. intros Hs. rewrite fupd_eq, fupd_ne by lia.
+    destruct (tret (gh g) f) as [r|] eqn:Er.
+    + exists r. split; [reflexivity|]. apply (S1r _ _ HS f r Er).
+    + exfalso. pose proof (S3 _ _ HS f Hfk Er) as C. rewrite Hs, (pcof_at _ _ _ Hl), Hpc in C. discriminate.
+  - rewrite !fupd_ne by lia. intros Hs. apply H; auto. lia.
+Qed.
+
+Lemma PInv_step g ls t c l g' l' es :
+  SInv g ls -> PInv g -> nth_error ls t = Some l -> tstep t c g l = Some (g', l', es) -> PInv g'.
+Proof.
+  intros HS HP Hl Hs. destruct l as [pr p hd fu].
+  pose proof (S2 _ _ HS t) as A2. rewrite (pcof_at _ _ _ Hl) in A2. cbn [at_] in A2.
+  step_cases Hs.
+  all: try solve [eapply (PK_none _ _ HP); hsimp; reflexivity].
+  all: try solve [eapply (PK_new _ _ _ _ _ HS HP Hl); hsimp; reflexivity].
+  all: try solve [eapply (PK_ret _ _ _ HP); hsimp; try reflexivity; apply (A2 _ eq_refl)].
+Qed.
+
+(* ================================================================== *)
 (* The invariant of reachable states                                    *)
 (* ================================================================== *)
 Record Inv (g : glob) (ls : list loc) : Prop := {
-  I_1 : Inv1 g ls; I_W : WInv g ls; I_S : SInv g ls; I_F : FInv g ls
+  I_1 : Inv1 g ls; I_W : WInv g ls; I_S : SInv g ls; I_P : PInv (g); I_F : FInv g ls
 }.
 
 Lemma Inv_init m th progs : Inv (gl (init m th progs)) (thr (init m th progs)).
-Proof. constructor; [apply Inv1_init|apply WInv_init|apply SInv_init|apply FInv_init]. Qed.
+Proof.
+  constructor; [apply Inv1_init|apply WInv_init|apply SInv_init| |apply FInv_init].
+  intros f k _ Hk. cbn in Hk. lia.
+Qed.
 
 Lemma Inv_step g ls t c l g' l' es :
   Inv g ls -> nth_error ls t = Some l -> tstep t c g l = Some (g', l', es) -> Inv g' (upd ls t l').
 Proof.
-  intros [H1 HW HS HF] Hl Hs. constructor.
+  intros [H1 HW HS HP HF] Hl Hs. constructor.
   - eapply Inv1_step; eauto.
   - eapply WInv_step; eauto.
   - eapply SInv_step; eauto.
+  - eapply PInv_step; eauto.
   - eapply FInv_step; eauto.
 Qed.
 
